@@ -10,6 +10,7 @@ use std::sync::atomic::Ordering;
 pub use crate::collector::global_collector::verif_impl::CollectorStats;
 pub use crate::collector::global_collector::verif_impl::collector_stats;
 pub use crate::collector::global_collector::verif_impl::install_collector;
+pub use crate::collector::global_collector::verif_impl::registry_locked;
 pub use crate::collector::global_collector::verif_impl::run_collector_cycle;
 pub use crate::collector::global_collector::verif_impl::touch_sender;
 
@@ -37,6 +38,9 @@ pub enum Site {
     RecvEmpty,
     /// The collector received this command from the receiver being drained.
     Received { kind: &'static str, ids: Vec<usize> },
+    /// The calling thread is about to take the receiver registry's lock to register its queue
+    /// (first command of the thread).
+    BeforeRegister,
 }
 
 static HOOK: AtomicUsize = AtomicUsize::new(0);
